@@ -210,3 +210,21 @@ Proof. intros caching s F acq H. destruct (reachable_inv _ _ _ _ H) as [_ [HA _]
 Lemma held_ids_distinct_pf : forall caching s F acq,
   reachable caching s F acq -> NoDup (map (id_of (heap s)) (addrs_f F ++ pool s)).
 Proof. intros caching s F acq H. destruct (reachable_inv _ _ _ _ H) as [HR _]. exact (R_ids _ _ _ HR). Qed.
+
+Lemma ids_below_counter_pf : forall caching s F acq,
+  reachable caching s F acq ->
+  (forall a x, heap s !! a = Some x -> (n_id x <= next_id s)%Z) /\
+  (forall i, i ∈ acq -> (i <= next_id s)%Z).
+Proof.
+  intros caching s F acq H. destruct (reachable_inv _ _ _ _ H) as [HR (_ & HA & _)].
+  split; [apply (R_idle _ _ _ HR)|exact HA].
+Qed.
+
+Lemma reset_takes_next_id_pf : forall site s n s',
+  reset site s n = Ok s' ->
+  id_of (heap s') n = (next_id s + 1)%Z /\ next_id s' = (next_id s + 1)%Z /\
+  heap s' !! n = Some (blank (next_id s + 1)).
+Proof.
+  intros site s n s'. unfold reset. destruct (heap s !! n); [|discriminate].
+  intros H. inversion H; subst. simpl. unfold id_of. rewrite lookup_insert. auto.
+Qed.
